@@ -980,6 +980,10 @@ impl Proto for FanOut {
         op("w0_split_step", Who::W(0), 4),
         op("fire", Who::N(0), 2),
         op("clear", Who::N(0), 1),
+        // the real `combine_with`, with the readiness event landing after the inner poll has
+        // registered the combined waker and before `combine_with` returns (the I/O driver runs on
+        // another thread): the caller's own waker must already be in the set
+        op("w1_combine_with_fired_inside", Who::W(1), 2),
     ];
     fn new(_: u8) -> Result<Self, Fail> {
         Ok(Self { wk: Arc::new(Wakers::new()), slot: Slot::default(), s: sleepers(), registered: None })
@@ -1014,6 +1018,22 @@ impl Proto for FanOut {
                 if let Some(w) = self.slot.waker.take() {
                     w.wake();
                 }
+            }
+            5 => {
+                let wk = self.wk.clone();
+                let slot = &mut self.slot;
+                let _ = self.s[1].poll(|cx| {
+                    wk.combine_with(cx, |icx| {
+                        let r = slot.poll(icx);
+                        if r.is_pending() {
+                            slot.ready = true;
+                            if let Some(w) = slot.waker.take() {
+                                w.wake();
+                            }
+                        }
+                        r
+                    })
+                });
             }
             _ => self.slot.ready = false,
         }
